@@ -27,9 +27,13 @@ abbrev Hier := List (P × Kind)
 
 /-- what `Store.apply_update` reports to the engine (order as in the tuple) -/
 structure Report where
-  /-- `process_updates`: `(path, is_step)`; a step listed here is a legacy deriver given in a
-  `processes` dictionary -/
+  /-- `process_updates`: `(path, is_step)`; a step listed here was given in a `processes`
+  dictionary (the legacy placement) -/
   procs : List (P × Bool)
+  /-- what the engine's flow holds for the steps listed in `procs` (`get_in(self.flow, path)`, the
+  flow updates of the same report included: `_add_process_path(process, path, self.flow)` since
+  fix F53); no entry = legacy deriver -/
+  procFlow : List (P × List P) := []
   /-- `step_updates` with the dependencies found for them in `flow_updates` -/
   steps : List (P × Option (List P))
   deletions : List P
@@ -37,9 +41,15 @@ structure Report where
 
 def prefixOf (pre p : P) : Bool := Viv.startsWith p pre
 
+/-- `get_in(flow, path)` on the flow entries that matter here -/
+def flowOf (fl : List (P × List P)) (path : P) : Option (List P) :=
+  match fl with
+  | [] => none
+  | (q, ds) :: rest => if q = path then some ds else flowOf rest path
+
 /-- the hierarchy after a structural update that reports `r`: additions first, deletions last -/
 def applyHier (h : Hier) (r : Report) : Hier :=
-  let added : Hier := r.procs.map (fun pb => (pb.1, if pb.2 then Kind.step none else Kind.proc)) ++
+  let added : Hier := r.procs.map (fun pb => (pb.1, if pb.2 then Kind.step (flowOf r.procFlow pb.1) else Kind.proc)) ++
     r.steps.map (fun sd => (sd.1, Kind.step sd.2))
   (h ++ added).filter (fun pk => !(r.deletions.any (fun d => prefixOf d pk.1)))
 
@@ -60,9 +70,9 @@ def addStepPath (e : Engine) (path : P) (deps : Option (List P)) : Option Engine
   | none => (addSequential e1.graph path).map (fun g => { e1 with graph := g })
   | some ds => (add e1.graph path ds).map (fun g => { e1 with graph := g })
 
-/-- `_add_process_path(process, path, {})` -/
-def addProcessPath (e : Engine) (path : P) (isStep : Bool) : Option Engine :=
-  if isStep then addStepPath e path none
+/-- `_add_process_path(process, path, self.flow)` -/
+def addProcessPath (fl : List (P × List P)) (e : Engine) (path : P) (isStep : Bool) : Option Engine :=
+  if isStep then addStepPath e path (flowOf fl path)
   else some { e with procPaths := addKey e.procPaths path }
 
 /-- `_delete_path(deletion)` (bookkeeping part) -/
@@ -75,7 +85,7 @@ def deletePath (e : Engine) (d : P) : Engine :=
 
 /-- `Engine.apply_update` after `Store.apply_update` returned `r` -/
 def applyReport (e : Engine) (r : Report) : Option Engine := do
-  let e1 ← r.procs.foldlM (fun e pb => addProcessPath e pb.1 pb.2) e
+  let e1 ← r.procs.foldlM (fun e pb => addProcessPath r.procFlow e pb.1 pb.2) e
   let e2 ← r.steps.foldlM (fun e sd => addStepPath e sd.1 sd.2) e1
   pure (r.deletions.foldl deletePath e2)
 
